@@ -3,6 +3,7 @@ from reg_lib import *
 
 PROPS = "Props/C10"
 DRV = ["main.go", "ops_tl1.go", "ops_reg.go", "ops_regbytes.go"]
+F_SPLIT_SIG = "C10:gen-does-not-compile:split-internal+byte-versions"
 
 
 class DictGen(randschema.Gen):
@@ -50,10 +51,16 @@ def specs_for(ctx, fam):
         ("cases_bytes_notl2", [TLS / "cases.tl"], ["--checkLengthSanity=false", "--generateByteVersions=cases_bytes."], None, False),
     ]
 
+    # minimal reproduction of the known finding (generated code does not compile), always part of the run
+    d = Path(ctx.scratch) / "f_split"
+    d.mkdir(exist_ok=True)
+    (d / "s.tl").write_text(randschema.HEADER + "rs.t a:(dictionary (dictionaryAny int string)) = rs.T;\n")
+    c.append(("bytes_split_min", [d / "s.tl"], ["--split-internal", "--generateByteVersions=rs."], None, True))
+
     def accept(ins):
         return any(x["kind"] == "dict" for x in ins)
 
-    return c + rand_specs(ctx, 3 if quick else 40, prefix="rb", extra_opts=["--generateByteVersions=rs."], gen_cls=DictGen,
+    return c + rand_specs(ctx, 2 if quick else 40, prefix="rb", extra_opts=["--generateByteVersions=rs."], gen_cls=DictGen,
                           verifdump=fam.bins.get("verifdump"), accept=accept)
 
 
@@ -74,6 +81,15 @@ def run(ctx):
     skipped = {}
 
     def work(u, rng):
+        if (u.error or "").startswith("go build") and "imported and not used" in u.error and "--split-internal" in u.options \
+                and any(o.startswith("--generateByteVersions") for o in u.options):
+            # a concrete failing input of the property's quantifier (accepted schema, generated with byte versions): not a machinery error
+            import re as _re
+            ctx.violation(F_SPLIT_SIG, f"{u.name}: code generated with {' '.join(u.options)} does not compile: "
+                          + trunc(_re.sub(r'\x1b\[[0-9;]*m', '', u.error[u.error.find('# verifh'):]), 300),
+                          {"unit": u.name, "options": u.options, "schema": Path(u.files[0]).read_text(), "error": u.error[-1500:]})
+            fam.add(units_hitting_known_codegen_defect=1)
+            return
         if not fam.usable(u):
             return
         ins = u.ins
